@@ -312,7 +312,8 @@ def make_programs(prop, profile_cfgs, n, root, label=""):
         if ss.wsdl is not None:
             from .wsdl_driver import free_port
             port = free_port()
-            ss.wsdl.location = f"http://127.0.0.1:{port}/soap/{name}/{i}"
+            tail = [f"/soap/{name}/{i}", f"/soap/{name}/{i}?wsdl=1&mode=a%20b", f"/soap/{name}/{i}/", "", f"/SOAP/{name}.svc;v=1/{i}"][i % 5]
+            ss.wsdl.location = f"http://127.0.0.1:{port}{tail}"
         p = Program(i, ss, root, f"{name}#{i}")
         p.port = port
         progs.append(p)
@@ -601,6 +602,7 @@ def run_c14(tier):
         else:
             kws = list(KEYWORDS)
         progs = []
+        seed_offset = common.seed_value()
         base = Program(0, gen_c14.base_program(), root, "baseline")
         base.port = None
         progs.append(base)
@@ -608,6 +610,14 @@ def run_c14(tier):
             p = Program(len(progs), ss, root, f"keyword:{kw}@{pos}")
             p.port = None
             p.c14 = ("keyword", kw, pos, None)
+            progs.append(p)
+        weird = gen_c14.weird_name_matrix()
+        if tier == "quick":
+            weird = [w for k, w in enumerate(weird) if k % 4 == seed_offset % 4]
+        for nm, pos, ss in weird:
+            p = Program(len(progs), ss, root, f"weird-name:{nm}@{pos}")
+            p.port = None
+            p.c14 = ("weird-name", nm, pos, None)
             progs.append(p)
         for cls, pos, text, ss in gen_c14.payload_matrix():
             p = Program(len(progs), ss, root, f"payload:{cls}@{pos}")
@@ -638,21 +648,33 @@ def run_c14(tier):
                 if "generator-panic" in rules or "generator-died" in rules:
                     v.violation(f"C14|{kind}|{'kw-class=' + _kw_class(a) if kind == 'keyword' else 'payload-class=' + a}|position={pos}|failure=generator-crash",
                                 {"program": p.label, "findings": p.findings[:2]}, files)
-                elif kind == "keyword":
+                elif kind in ("keyword", "weird-name"):
                     # a keyword is a legal XML name: rejecting it is not "usable as a name"
                     v.violation(f"C14|keyword|kw-class={_kw_class(a)}|position={pos}|failure=rejected", {"program": p.label, "findings": p.findings[:2]}, files)
                 continue
             accepted += 1
             outcomes[f"{kind}:accepted"] = outcomes.get(f"{kind}:accepted", 0) + 1
-            tag = f"kw-class={_kw_class(a)}" if kind == "keyword" else f"payload-class={a}"
+            tag = f"kw-class={_kw_class(a)}" if kind == "keyword" else (f"payload-class={a}" if kind == "payload" else f"name-class={_name_class(a)}")
             for f in p.findings:
                 if f["rule"] == "parse-error":
                     v.violation(f"C14|{kind}|{tag}|position={pos}|failure=parse-error", {"program": p.label, "keyword_or_payload": a, "error": f.get("error"), "line": f.get("line")}, files)
                 elif f["rule"] == "compile-error":
                     v.violation(f"C14|{kind}|{tag}|position={pos}|failure={f['code']}", {"program": p.label, "keyword_or_payload": a, "message": f["message"], "text": f["text"]}, files)
+                elif kind == "weird-name":
+                    pass
                 elif f["rule"] in ("struct-missing", "member-missing") and kind == "keyword":
                     v.violation(f"C14|keyword|{tag}|position={pos}|failure={f['rule']}", {"program": p.label, "keyword": a, "finding": {k: x for k, x in f.items() if k != 'flat'}}, files)
             if not p.shape or not p.shape.get("ok"):
+                continue
+            if kind == "weird-name":
+                # same number of structs, members and client methods as the baseline: nothing was dropped for its name
+                def counts(shape):
+                    st = [x for x in shape["structs"] if x["module"].split("::")[0] not in refmap.HELPER_MODULES]
+                    fns = sum(len(i["fns"]) for i in shape["impls"] if i["trait"] is None and i["module"] == "")
+                    return len(st), sum(len(x["fields"]) for x in st), fns
+                if counts(p.shape) != counts(base.shape):
+                    v.violation(f"C14|weird-name|{tag}|position={pos}|failure=component-count-changed",
+                                {"program": p.label, "name": a, "baseline": counts(base.shape), "got": counts(p.shape)}, files)
                 continue
             if kind == "payload":
                 idents = set(p.shape["idents"])
@@ -690,6 +712,21 @@ def run_c14(tier):
                                    "rustc (stable, edition 2024) is the authority on identifier legality"], min_evaluations=50)
     finally:
         shutil.rmtree(root, ignore_errors=True)
+
+
+def _name_class(nm):
+    cls = []
+    if any(ord(c) > 127 for c in nm):
+        cls.append("non-ascii")
+    if "." in nm:
+        cls.append("dot")
+    if "-" in nm:
+        cls.append("dash")
+    if any(c.isdigit() for c in nm):
+        cls.append("digit")
+    if nm.startswith("_") or "__" in nm:
+        cls.append("underscore")
+    return "+".join(cls) or "plain"
 
 
 def _kw_class(kw):
